@@ -367,6 +367,26 @@ def run_check(prop_id: str, body, argv=None):
     ctx.replay_file = args.replay
     audit, extra, status = {}, {}, "error"
     code = 2
+
+    def _budget():
+        # a check never runs for ever: past its time budget it is an infrastructure error (exit 2), not a verdict
+        import threading
+
+        limit = float(os.environ.get("VERIF_CHECK_BUDGET_S", "2400" if tier == "quick" else "14400"))
+
+        def fire():
+            print(f"ERROR property={prop_id} infrastructure: time budget of {limit:.0f} s exceeded")
+            print(f"[{prop_id}] infra-error: time budget exceeded; evaluations={ctx.evaluations} wall={time.time() - ctx.t0:.1f}s", flush=True)
+            try:
+                kill_descendants()
+            finally:
+                os._exit(2)
+
+        t = threading.Timer(limit, fire)
+        t.daemon = True
+        t.start()
+
+    _budget()
     try:
         pin = pin_check()
         audit = lean_audit(prop_id, tier)
@@ -494,3 +514,42 @@ class OsProxy:
 
     def makedirs(self, path, *a, **kw):
         self.made.append(path)
+
+
+def start_json_child(module_args: list, extra_env: dict | None = None):
+    """Start `python -m <module> args…` in its own session with PYTHONPATH = repo, harness, stand-ins; stdout goes to a FILE
+    (worker processes leaked by the child would keep a pipe open and block the reader).  -> handle for finish_json_child."""
+    import tempfile
+
+    env = dict(os.environ)
+    repo = os.environ.get("VERIF_REPO", "/repo")
+    env["PYTHONPATH"] = os.pathsep.join([repo, os.path.join(VERIF, "harness"), os.path.join(VERIF, "harness", "standins")])
+    env["PATH"] = os.path.join(VERIF, "harness", "standins", "bin") + os.pathsep + env.get("PATH", "")
+    env.update(extra_env or {})
+    fd, path = tempfile.mkstemp(prefix="vh_child_", suffix=".out")
+    fh = os.fdopen(fd, "w")
+    pr = subprocess.Popen([sys.executable, "-m"] + list(module_args), env=env, stdout=fh, stderr=subprocess.DEVNULL,
+                          stdin=subprocess.DEVNULL, start_new_session=True)
+    fh.close()
+    return pr, path
+
+
+def finish_json_child(handle, timeout: float):
+    """Wait for the child (not for its descendants), kill its process group, return the last JSON line it printed or None."""
+    pr, path = handle
+    try:
+        pr.wait(timeout=timeout)
+    except subprocess.TimeoutExpired:
+        pass
+    try:
+        os.killpg(pr.pid, 9)
+    except Exception:  # noqa
+        pass
+    try:
+        lines = [l for l in open(path).read().splitlines() if l.startswith("{")]
+    finally:
+        try:
+            os.unlink(path)
+        except OSError:
+            pass
+    return json.loads(lines[-1]) if lines else None
